@@ -124,6 +124,9 @@ func (f *RawMessageFilter) ConsumeCacheMessages(consensusMessagesHandler Consens
 		f.logger.Debug("LHFILTER consuming %d messages from height=%d", len(messages), height)
 	}
 	for _, message := range messages {
+		if f.state.Height() != height { // a cached message completed this height and a newer round took over
+			break
+		}
 		f.processConsensusMessage(message)
 	}
 	delete(f.futureCache, height)
